@@ -3,7 +3,7 @@ import random
 import struct
 
 from pyvc.core import And, Eq, Implies, Ite, Not, Or, SymBytes
-from pyvc.unit import unit
+from pyvc.unit import bare, unit
 from specs import axmlwriter as W, resvalue as RV
 
 AXML = "androguard/core/axml/__init__.py"
@@ -34,7 +34,7 @@ META = {
 
 
 def _sb(m, charbuff, utf8, offsets):
-    s = object.__new__(m.StringBlock)
+    s = bare(m.StringBlock)
     s._cache = {}
     s.m_isUTF8, s.m_charbuff, s.m_stringOffsets, s.stringCount = utf8, charbuff, offsets, len(offsets)
     return s
@@ -214,7 +214,7 @@ class _SB:
 
 
 def _parser(U, m, data, pos, filesize):
-    p = object.__new__(m.AXMLParser)
+    p = bare(m.AXMLParser)
     p._valid = True
     p.axml_tampered = False
     p.buff = U.stream(data, pos)
@@ -472,7 +472,7 @@ def start_element_unbounded(U, f):
     world = _Attrs(U, mem, p0 + 16 + at_start, at_size)
     for sp in (ATTR_READ, ATTR_SHIFT):
         sp.G = {"U": U, "world": world, "a": a, "count": count, "fields": [f]}
-    p = object.__new__(m.AXMLParser)
+    p = bare(m.AXMLParser)
     p._valid, p.axml_tampered = True, False
     p.buff = ubuf.SymStreamU(buf, p0, "buff")
     p.buff_size, p.filesize = buf.length, buf.length + 1
@@ -573,7 +573,7 @@ def chunk_loop_terminates(U):
     mem = ubuf.SymMem("file")
     buf = ubuf.SymBuf(mem, 0, U.int("len", 0, ubuf.MAXLEN))
     p0 = U.int("p0", 0, ubuf.MAXLEN)
-    p = object.__new__(m.AXMLParser)
+    p = bare(m.AXMLParser)
     p._valid, p.axml_tampered = True, False
     p.buff = ubuf.SymStreamU(buf, p0, "buff")
     p.buff_size, p.filesize = buf.length, U.int("filesize", 0, ubuf.MAXLEN)
@@ -600,7 +600,7 @@ class _SBIdx:
            "when the typed value is 0xFFFFFFFF; every other type yields ''")
 def attribute_string_value(U):
     m = U.mod(AXML)
-    p = object.__new__(m.AXMLParser)
+    p = bare(m.AXMLParser)
     p.m_event = m.START_TAG
     words = [U.int("w%d" % i, 0, 0xFFFFFFFF) for i in range(10)]
     vtype = U.int("type", 0, 255)
